@@ -24,6 +24,8 @@ func init() {
 }
 
 func runC13(c *Ctx) {
+	c.Rule("C13.R10", "frozen lockset: an SDS provider's secret and its set of TLS contexts are only touched under the provider mutex", 8)
+	defer runLockTables(c, "C13", nil)
 	c.Assumptions = append(c.Assumptions, "pkg/mtls/crypto/tls (forked crypto/tls) enforces ClientAuth, RootCAs/ClientCAs, MinVersion/MaxVersion and VerifyPeerCertificate as the standard library documents")
 	c.Rule("C13.R1", "(verify_client, require_client_cert) -> ClientAuth decision table; stored into the server config", 5)
 	c.Rule("C13.R2", "InsecureSkipVerify=true only under insecure_skip or a custom verifier", 2)
